@@ -469,7 +469,58 @@ fn serial_one(lock: u8, seq: &[u8]) -> Vec<(String, String)> {
     }
     v
 }
+/// Authenticators whose credential-id length comes from the public helper
+/// `CredentialIdLength::randomized` (every seed 0..n of a seeded generator), two of them sharing a
+/// store and registering six credentials in turn: every successful registration's credential is
+/// present afterwards.
+fn randomized_lengths_one(seed: u64, lock: u8) -> Vec<(String, String)> {
+    use crate::core::exec::block_on;
+    use rand::SeedableRng;
+    let mut rng = rand::rngs::StdRng::seed_from_u64(seed);
+    let len = passkey_authenticator::CredentialIdLength::randomized(&mut rng);
+    let mut v = vec![];
+    macro_rules! go {
+        ($shared:expr) => {{
+            let shared = $shared;
+            let mk = || {
+                let mut a = Authenticator::new(Aaguid::new_empty(), shared.clone(), ScriptedUv::consenting(Log::new()));
+                a.set_make_credential_id_length(len);
+                a
+            };
+            let mut auths = [mk(), mk()];
+            let mut ids: Vec<Vec<u8>> = vec![];
+            for k in 0..6usize {
+                match block_on(auths[k % 2].make_credential(mc_request(RP, &[0x60, k as u8], None, true, true, true, false, None))) {
+                    Ok(r) => ids.push(r.auth_data.attested_credential_data.as_ref().map(|a| a.credential_id().to_vec()).unwrap_or_default()),
+                    Err(e) => v.push(("serial-registration-fails".to_string(), format!("registration {k} with an id length drawn by CredentialIdLength::randomized (seed {seed}) failed: {e:?}"))),
+                }
+            }
+            let held: Vec<Vec<u8>> = shared.recs().into_iter().map(|r| r.id).collect();
+            let lost = ids.iter().filter(|i| !held.contains(i)).count();
+            let mut distinct = ids.clone();
+            distinct.sort();
+            distinct.dedup();
+            if lost > 0 || distinct.len() != ids.len() || held.len() < ids.len() {
+                v.push(("lost-credential".to_string(), format!("{} successful registrations by two authenticators whose id length CredentialIdLength::randomized drew (seed {seed}: ids of {:?} bytes) left {} credentials in the shared store ({} distinct ids)", ids.len(), ids.first().map(|i| i.len()), held.len(), distinct.len())));
+            }
+        }};
+    }
+    if lock == 0 {
+        go!(Arc::new(tokio::sync::Mutex::new(MemoryStore::new())))
+    } else {
+        go!(Arc::new(tokio::sync::RwLock::new(MemoryStore::new())))
+    }
+    v
+}
+
 fn serial_sequences(tier: Tier, stats: &mut Stats) {
+    for seed in 0..tier.pick(400u64, 4000) {
+        let lock = (seed % 2) as u8;
+        stats.case(&(seed, "randomized-length"), true, "randomized-id-length");
+        for (k, dd) in randomized_lengths_one(seed, lock) {
+            stats.finding(Finding::new(format!("serial/lock={}/kind={k}", ["mutex", "rwlock"][lock as usize]), dd, json!({"randomized_length": {"seed": seed, "lock": lock}})));
+        }
+    }
     let depth = tier.pick(5usize, 6);
     for lock in 0..2u8 {
         for d in 2..=depth {
@@ -552,7 +603,7 @@ pub fn run(ctx: &Ctx) -> Result<Run, String> {
     stats.distinct_nontrivial.extend((0..schedules).map(|i| i));
     let mut run = Run::from_stats(
         "model_checking",
-        "non-overlapping ceremonies: every sequence of 2..5 (thorough 6) ceremonies by three long-lived authenticators sharing the store (assertions with one credential; at most one registration) in which each ceremony completes before the next starts - strict oracle: each assertion reports stored+1 and leaves it in the store; every complete schedule (choice of the next enabled task at every suspension point) of 2 concurrent ceremonies, and every schedule with at most 2 (quick) / 3 (thorough) preemptions of 3 ceremonies (also of two assertions in sequence next to a registration on a store that loses one counter write-back), over Arc<Mutex<_>> and Arc<RwLock<_>> around MemoryStore / Option<Passkey>; suspension points: before every store call (outer shim), inside every store call while the lock is held (inner shim), in the user-validation step, and tokio's lock waits. Each schedule is one distinct execution of the real code; distinct_nontrivial counts schedules",
+        "credential-id lengths drawn by CredentialIdLength::randomized for 400 (4000) seeds of a seeded generator: six registrations by two authenticators sharing the store, all present afterwards; non-overlapping ceremonies: every sequence of 2..5 (thorough 6) ceremonies by three long-lived authenticators sharing the store (assertions with one credential; at most one registration) in which each ceremony completes before the next starts - strict oracle: each assertion reports stored+1 and leaves it in the store; every complete schedule (choice of the next enabled task at every suspension point) of 2 concurrent ceremonies, and every schedule with at most 2 (quick) / 3 (thorough) preemptions of 3 ceremonies (also of two assertions in sequence next to a registration on a store that loses one counter write-back), over Arc<Mutex<_>> and Arc<RwLock<_>> around MemoryStore / Option<Passkey>; suspension points: before every store call (outer shim), inside every store call while the lock is held (inner shim), in the user-validation step, and tokio's lock waits. Each schedule is one distinct execution of the real code; distinct_nontrivial counts schedules",
         !capped,
         stats,
     );
@@ -565,6 +616,10 @@ pub fn run(ctx: &Ctx) -> Result<Run, String> {
 }
 
 pub fn replay(_ctx: &Ctx, case: &Value) -> Result<Vec<Finding>, String> {
+    if let Some(r) = case.get("randomized_length") {
+        let (seed, lock) = (r["seed"].as_u64().unwrap_or(0), r["lock"].as_u64().unwrap_or(0) as u8);
+        return Ok(randomized_lengths_one(seed, lock).into_iter().map(|(k, d)| Finding::new(format!("serial/lock={}/kind={k}", ["mutex", "rwlock"][lock as usize]), d, case.clone())).collect());
+    }
     if let Some(sr) = case.get("serial") {
         let lock = sr["lock"].as_u64().unwrap_or(0) as u8;
         let seq: Vec<u8> = serde_json::from_value(sr["seq"].clone()).map_err(|e| e.to_string())?;
